@@ -96,10 +96,16 @@ def extract_all(root, units=None):
     todo = [u for u in units if not os.path.exists(os.path.join(cdir, u + '.ok'))]
     if todo:
         with ThreadPoolExecutor(max_workers=len(todo)) as ex:
-            res = list(ex.map(lambda u: _extract(root, u, os.path.join(cdir, u + '.json')), todo))
+            # each process extracts into its own temporary file and publishes it atomically: checks started concurrently on a new tree
+            # may duplicate the work but never read or write a half-written facts file
+            res = list(ex.map(lambda u: _extract(root, u, os.path.join(cdir, '%s.json.%d.tmp' % (u, os.getpid()))), todo))
         for unit, rc, err in res:
+            tmp = os.path.join(cdir, '%s.json.%d.tmp' % (unit, os.getpid()))
             if rc != 0:
+                if os.path.exists(tmp):
+                    os.remove(tmp)
                 raise AnalysisBroken('cclfacts failed on %s (does the tree compile?): %s' % (unit, err))
+            os.replace(tmp, os.path.join(cdir, unit + '.json'))
             open(os.path.join(cdir, unit + '.ok'), 'w').close()
         _prune_cache(os.path.join(BUILD, 'facts'), keep=cdir)
     return cdir, key
